@@ -263,16 +263,7 @@ FILLS = [True, False, 0, 1, -1, 255, 256, 2**31, 2**53, 2**53 + 1, 2**63 - 1, 2*
          datetime.date(2020, 1, 1), datetime.datetime(2020, 1, 1, 12, 30), datetime.timedelta(days=2)]
 
 
-# a smaller grid for the Frame strata (they are multiplied by every block layout)
-HOSTS_CORE = [k for k in HOSTS if k.split('/')[0] not in ('M8[h]', 'M8[ms]', 'M8[us]', 'm8[W]', 'm8[s]', 'm8[us]')
-              and k not in ('M8[Y]/full', 'M8[s]/full', 'm8[D]/full')]
-FILLS_CORE = [True, 0, -1, 256, 2**53 + 1, 2**63 - 1, 2**63, 2**64, 1.5, 0.1, float('nan'), float('inf'), 1 + 2j, 'a', 'abcdefgh', b'abcdefgh', None,
-              np.datetime64('NaT'), np.datetime64('2020-01-01'), np.datetime64('2020-03', 'M'), np.datetime64('2020-01-02', 'W'), np.datetime64(1, 'ns'),
-              np.timedelta64(5, 'D'), np.timedelta64(7, 'ns'), np.timedelta64('NaT'), (1, 'a'), np.int8(3), np.uint64(2**64 - 1), np.float32(1.5),
-              np.str_('abcdef'), np.bool_(False), datetime.date(2020, 1, 1)]
-
-
-# the Frame strata of the thorough tier (complete product x every layout) use this grid; the quick tier samples the core grid
+# the Frame strata (multiplied by every block layout) use this grid: thorough = the complete product, quick = a seeded sample of it
 HOSTS_FRAME = ['bool', 'int8', 'int64', 'uint8', 'uint64', 'float16', 'float64', 'complex128', '<U1', '<U4', 'S4', 'M8[Y]', 'M8[W]', 'M8[D]', 'M8[ns]',
                'M8[ns]/full', 'm8[Y]', 'm8[M]', 'm8[D]', 'm8[ns]/full', 'object']
 FILLS_FRAME = [True, 0, 2**53 + 1, 2**64, 1.5, float('nan'), 1 + 2j, 'abcdefgh', b'abcdefgh', None, np.datetime64('NaT'),
@@ -663,7 +654,6 @@ def elem_case(ctx, kind, op, hd, fv):
 
 def series_elem_cases(ctx):
     pairs = [(hd, fv) for hd in HOSTS for fv in FILLS]
-    core_pairs = [(hd, fv) for hd in HOSTS_FRAME for fv in FILLS]
     for k, op in enumerate(SERIES_ELEM_OPS):
         if ctx.tier == 'thorough':
             sel = pairs
@@ -789,7 +779,6 @@ def arr_case(ctx, kind, op, hd, od, **kw):
 
 def series_arr_cases(ctx):
     pairs = [(hd, od) for hd in HOSTS for od in HOSTS]
-    core_pairs = [(hd, od) for hd in HOSTS_FRAME for od in HOSTS_FRAME]
     for k, op in enumerate(SERIES_ARR_OPS):
         sel = pairs if ctx.tier == 'thorough' else ctx.rng.sample(pairs, min(len(pairs), ctx.n(350 if k == 0 else 35, 0)))
         for hd, od in sel:
@@ -991,10 +980,9 @@ def frame_elem_case(ctx, op, hd, fv, layout):
 
 
 def frame_elem_cases(ctx):
-    pairs = [(hd, fv) for hd in HOSTS_CORE for fv in FILLS_CORE]
-    full = [(hd, fv) for hd in HOSTS_FRAME for fv in FILLS_FRAME]
+    pairs = [(hd, fv) for hd in HOSTS_FRAME for fv in FILLS_FRAME]
     for op in FRAME_ELEM_OPS:
-        sel = full if ctx.tier == 'thorough' else ctx.rng.sample(pairs, min(len(pairs), ctx.n(8, 0)))
+        sel = pairs if ctx.tier == 'thorough' else ctx.rng.sample(pairs, min(len(pairs), ctx.n(8, 0)))
         for hd, fv in sel:
             layouts = layouts3(host(hd))
             if ctx.tier == 'thorough' and op not in LAYOUT_SENSITIVE:
@@ -1139,10 +1127,9 @@ SAME_PAIR_OPS = (fop_row, fop_values, fop_transpose, fop_iter_array_rows)
 
 
 def frame_arr_cases(ctx):
-    pairs = [(hd, od) for hd in HOSTS_CORE for od in HOSTS_CORE]
-    full = [(hd, od) for hd in HOSTS_FRAME for od in HOSTS_FRAME]
+    pairs = [(hd, od) for hd in HOSTS_FRAME for od in HOSTS_FRAME]
     for op in FRAME_ARR_OPS:
-        sel = full if ctx.tier == 'thorough' else ctx.rng.sample(pairs, min(len(pairs), ctx.n(12, 0)))
+        sel = pairs if ctx.tier == 'thorough' else ctx.rng.sample(pairs, min(len(pairs), ctx.n(12, 0)))
         for hd, od in sel:
             a, b = host(hd), host(od)
             second = b.dtype if op in SAME_PAIR_OPS else (a.dtype if op is fop_assign_row_series else OTHER.dtype)
